@@ -48,4 +48,12 @@ let init () =
           | KGray -> let c = gray_new t a0 in z_out (into_storage t c) ^ "/" ^ chans t c
           | KBinary -> let c = bin_of_bool (int_of_z a0 <> 0) in z_out (into_storage t c) ^ "/" ^ chans t c in
         Stdlib.String.concat "," (Stdlib.List.init 256 item))
+    | _ -> "BAD-ARGS");
+  register "named" (function
+    | [n] -> with_row n (fun t ->
+        match t.c_kind with
+        | KRgb _ ->
+            Stdlib.String.concat "," (Stdlib.List.map (fun c ->
+              z_out (into_storage t c) ^ "/" ^ z_out (get_r t c) ^ "/" ^ z_out (get_g t c) ^ "/" ^ z_out (get_b t c)) (named_colors t))
+        | _ -> "NOT-RGB " ^ n)
     | _ -> "BAD-ARGS")
